@@ -71,7 +71,9 @@ StepBlock(e) ==
              THEN "C09:repeated_delivery_had_an_effect"
         ELSE IF ~accepted /\ b.id \notin pre /\ (b.id \in served \/ b.id \in RowIds(p)) THEN "C09:rejected_block_in_state_or_store"
         ELSE IF ~accepted /\ b.id \notin pre /\ b.id \in SetOf(p.buffer) THEN "C09:rejected_block_stays_queued_for_the_store"
-        ELSE IF ~accepted /\ p.pool # PoolIds(pool) THEN "C09:rejected_block_changed_the_pending_pool"
+        \* (with unvalidated bulk-download blocks around, a rejected block rolls the node back to its last validated state: those blocks
+        \*  go, and with them the pending transactions that spent their outputs -- outside C09's quantification, required by C13)
+        ELSE IF ~accepted /\ (strict \/ served = pre) /\ p.pool # PoolIds(pool) THEN "C09:rejected_block_changed_the_pending_pool"
         ELSE IF ~accepted /\ strict /\ (served # pre \/ p.head # head) THEN "C09:rejected_block_changed_chain_state"
         ELSE IF ~accepted /\ RowIds(p) # S!Ids(chainT) THEN "C09:rejected_block_changed_the_store"
         ELSE IF ~accepted /\ (\E q \in DOMAIN p.out : BlockMsgs(p, q, b.id) # 0) THEN "C09:rejected_block_relayed"
@@ -98,7 +100,12 @@ StepBlock(e) ==
               ELSE IF br = "bad_in_state" THEN /\ buffer' = << >> /\ UNCHANGED << chainT, locT, outT, inT, txnOpen >>
               ELSE /\ buffer' = buf /\ UNCHANGED << chainT, locT, outT, inT, txnOpen >>
         /\ LET c13 == C13Clause(p, prePool, p.head # head)
-               c == IF c9 # "" THEN c9 ELSE c13
+               \* C04 on the delivery path (arrivals include repeated deliveries): evaluated when the served set is what the ledger holds
+               c4 == IF "C04" \notin Focus \/ served # DOMAIN blocks' THEN ""
+                     ELSE IF p.head # FirstSeenBest(blocks', order') THEN "C04:head_not_first_seen_of_greatest_height"
+                     ELSE IF SetOf(p.tips) # Childless(blocks') THEN "C04:tips_not_exactly_childless_blocks"
+                     ELSE ""
+               c == IF c9 # "" THEN c9 ELSE IF c4 # "" THEN c4 ELSE c13
            IN /\ DriftIf((br \in {"accept", "accept_unvalidated"}) # accepted, "block accepted/refused differs from Node!Branch = " \o br)
               /\ DriftIf(RowIds(p) # S!Ids(chainT'), "store rows differ from Node/Store model")
               /\ DriftIf(SetOf(p.buffer) # {buffer'[k].id : k \in 1..Len(buffer')}, "write buffer differs from Node/Store model")
